@@ -25,6 +25,9 @@ CLAIMS = {
  "C06": ("Theorem paths_agree: for every duplicate-free document the text-path model and the value-path model (serde_json Map + From<&Value>) give the same outcome; "
          "visitor corollary; witness that duplicates legitimately differ. Correspondence of both paths (incl. JsonVisitor identity) on ~35k documents; oracle: "
          "from_str(text) == From<&Value>(serde_json(text)) on thousands of random renderings. Known finding KF5 (escaped member names).", "6/C06"),
+ "C11": ("Theorems: de (ser s) = Some s for every well-formed shape (serde round trip), ser injective, and Display is a PREFIX-FREE code on shapes whose member names are identifier-like "
+         "([A-Za-z0-9_-]+), hence injective; a witness shows collisions exist outside that domain (as the property's quantifier allows). Correspondence byte for byte: serde_json::to_string vs "
+         "the modelled compact writer, to_string() vs display, round trip, on level-1 + wrappers + random deep shapes with odd keys; oracle: round trip, determinism, pairwise collision search.", "6/C11"),
  "C17": ("Ten theorems give the defining equations of single-document inference for all documents: scalars, object = member names -> member shapes, "
          "array classification (equal -> Array, differing -> Tuple in order, objects -> folded Object) and the three key laws of the array-of-objects fold "
          "(union of keys, everywhere-present keys unchanged, partly-present keys optional). Oracle independent of the model: the implementation's result is "
